@@ -19,7 +19,7 @@ for pid in props:
         "evidence_file": "evidence/%s.json" % pid,
         "replay_cmd_template": "./check %s --replay {path}" % pid,
         "engine": "lean4+hx",
-        "level_claimed": {"category": c.get("level", "proof"), "text": c["level_text"], "design_ref": c.get("design_ref", "DESIGN.md §9 " + pid)},
+        "level_claimed": {"category": ("proof" if str(c.get("level", "proof")).startswith("proof") else c.get("level")), "text": c["level_text"], "design_ref": c.get("design_ref", "DESIGN.md §9 " + pid)},
         "level_note": c["level_note"],
         "technique": c.get("technique", "Lean 4 machine-checked proof over an executable model + differential correspondence with the Go code"),
     })
